@@ -203,6 +203,10 @@ func init() {
 			for i := 0; i < pick(tier, 2, 8); i++ {
 				js = append(js, Job{Sub: "deflevel", Mode: "prod", From: 200 + i, To: 201 + i, Args: []string{"-benchlabel=nightly"}})
 			}
+			// processes in which the application's no-color switch is on before the first logger is made
+			for i := 0; i < pick(tier, 2, 8); i++ {
+				js = append(js, Job{Sub: "deflevel", Mode: []string{"prod", "test"}[i%2], From: 300 + i, To: 301 + i, Args: []string{"-x", "nocolormode=1"}})
+			}
 			return js
 		},
 	})
